@@ -244,17 +244,27 @@ def go_test(pkgs, pkgdir, run, env=None, timeout=1200, race=False, tmp=None, cov
     if covdir and not cover:
         os.makedirs(covdir, exist_ok=True)
         cover = tempfile.mktemp(prefix="cov-", suffix=".out", dir=covdir)
+    cwd = REPO
     if cover:
+        # the cover tool cannot instrument files that exist only in an overlay: materialise tree + overlay in a scratch copy
+        cwd = os.path.join(tmp, "covtree")
+        subprocess.run(["rsync", "-a", "--exclude", ".git", REPO + "/", cwd + "/"], check=True)
+        for dst, src in json.load(open(ov))["Replace"].items():
+            shutil.copyfile(src, os.path.join(cwd, os.path.relpath(dst, REPO)))
+        cmd = [c for c in cmd if c not in ("-overlay", ov)]
         cmd += ["-coverprofile", cover, "-coverpkg", "./..."]
     cmd.append("./" + pkgdir + "/")
     t0 = time.time()
     try:
-        p = subprocess.run(cmd, cwd=REPO, env=e, stdout=subprocess.PIPE, stderr=subprocess.STDOUT, text=True,
+        p = subprocess.run(cmd, cwd=cwd, env=e, stdout=subprocess.PIPE, stderr=subprocess.STDOUT, text=True,
                            timeout=timeout + 60, errors="replace")
     except subprocess.TimeoutExpired:
         raise Infra("go test timeout: %s %s" % (pkgdir, run))
     if p.returncode != 0:
         o = p.stdout
+        if re.search(r"^panic: vf:", o, re.M):           # the harness's own assertions all start with "vf:"
+            sys.stderr.write(o[-3000:])
+            raise Infra("the harness panicked (not the code under test) in %s -run %s" % (pkgdir, run))
         if re.search(r"^(panic:|fatal error:)", o, re.M) and "[build failed]" not in o and "[setup failed]" not in o:
             raise ProductCrash(o)
         sys.stderr.write(o[-3000:])
